@@ -33,6 +33,9 @@ func runC16(cases []string, out *bufio.Writer, _ []string) {
 		'L': {"appender.sinkL.type": "Rec", "appender.fileL.type": "File", "appender.fileL.fileDir": os.TempDir(), "appender.fileL.fileName": "verif-c16-late.log",
 			"logger.other.type": "AsyncLogger", "logger.other.tags": "_c16_*", "logger.other.appenderRef.ref": "sinkL",
 			"logger.h2.type": "AsyncLogger", "logger.h2.tags": "_c16x_*", "logger.h2.appenderRef.ref": "sinkL"}, // handle h1 is not configured: fails after Start (h2 may already be bound)
+		// everything resolves, starts and binds; the very last step (property injection) fails
+		'P': {"appender.sinkL.type": "Rec", "logger.h1.type": "AsyncLogger", "logger.h1.tags": "_c16_*", "logger.h1.appenderRef.ref": "sinkL",
+			"logger.h2.type": "AsyncLogger", "logger.h2.tags": "_c16x_*", "logger.h2.appenderRef.ref": "sinkL", "enableCaller": "maybe"},
 	}
 	defer os.Remove(os.TempDir() + "/verif-c16-late.log")
 	watch := func(f func()) string {
@@ -57,7 +60,7 @@ func runC16(cases []string, out *bufio.Writer, _ []string) {
 		for i := 0; i < len(line); i++ {
 			op := line[i]
 			switch op {
-			case 'A', 'B', 'E', 'L':
+			case 'A', 'B', 'E', 'L', 'P':
 				var err error
 				if r := watch(func() { err = log.Refresh(cfgs[op]) }); r != "" {
 					obs = append(obs, r)
